@@ -25,6 +25,7 @@ import time
 import hashlib
 import signal
 import itertools
+import collections
 import traceback
 import subprocess
 import multiprocessing as mp
@@ -80,9 +81,10 @@ class watchdog(object):
 
 class Result(object):
     """Outcome of one explored case."""
-    __slots__ = ('outcome', 'nontrivial', 'violation', 'calls')
+    __slots__ = ('outcome', 'nontrivial', 'violation', 'calls', 'case')
 
     def __init__(self, outcome, nontrivial=True, violation=None, calls=1):
+        self.case = None                # set when the replayable case differs from the enumerated one
         self.outcome = outcome          # short string: bucket of what was observed
         self.nontrivial = nontrivial    # by the family's stated rule
         self.violation = violation      # None or dict(sig=..., msg=..., expected=..., observed=...)
@@ -120,7 +122,7 @@ class Stats(object):
             if len(self.violations) < MAX_VIOL_KEPT:
                 v = dict(res.violation)
                 v['family'] = self.family
-                v['case'] = jsonable(case)
+                v['case'] = jsonable(res.case if res.case is not None else case)
                 self.violations.append(v)
 
     def merge(self, other):
@@ -171,6 +173,8 @@ class Family(object):
     def run_slice(self, tier, seed, w, W):
         st = Stats(self.name)
         self.setup(tier)
+        if self.isolate is not None:
+            self.isolate()
         off = seed % W
         it = itertools.islice(self.cases(tier), (w - off) % W, None, W)
         for case in it:
@@ -185,7 +189,83 @@ class Family(object):
         st.transitions = st.calls
         return st
 
+    # Families whose cases run against shared long-lived state (e.g. the process-wide parser) define
+    # isolate() to reset that state.  A violation is then re-examined: alone after isolate(), and if it
+    # vanishes, after isolate() + the previous case -- so that what is reported is always replayable.
+    isolate = None
+
     def run_case(self, case):
+        if isinstance(case, dict) and '_seq' in case:
+            self.isolate()
+            res = None
+            for c in case['_seq']:
+                res = self._guarded(self.from_json(c))
+            res.case = case
+            return res
+        if self.isolate is not None:
+            # shared state is reset every ISOLATE_EVERY cases, so every observation is reproducible from
+            # the cases since the last reset (kept in the window)
+            if self._window is None:
+                self._window = collections.deque(maxlen=self.ISOLATE_EVERY)
+            if len(self._window) >= self.ISOLATE_EVERY:
+                self.isolate()
+                self._window.clear()
+        res = self._guarded(case)
+        if res.violation is not None and self.isolate is not None:
+            self.isolate()
+            res2 = self._guarded(case)
+            if res2.violation is not None:
+                res = res2
+            else:
+                found = None
+                window = list(self._window or [])
+                for L in (1, 2, 4, 8, 16, 32, 64, 128, 256, 512):
+                    if L > len(window) and L // 2 >= len(window):
+                        break
+                    pre = window[-L:]
+                    r = self._run_seq(pre + [case])
+                    if r.violation is not None:
+                        found = (pre, r)
+                        break
+                if found is not None:
+                    pre, r = found
+                    k = 0
+                    while k < len(pre):            # greedy one-at-a-time shrinking of the prefix
+                        trial = pre[:k] + pre[k + 1:]
+                        r2 = self._run_seq(trial + [case])
+                        if r2.violation is not None:
+                            pre, r = trial, r2
+                        else:
+                            k += 1
+                    r.violation['sig'] = 'history-dependent:' + r.violation['sig']
+                    r.violation['msg'] = ('only after first running %r: ' % ([self.describe(c) for c in pre],)
+                                          + r.violation['msg'])
+                    r.case = {'_seq': [jsonable(c) for c in pre + [case]]}
+                    res = r
+                else:
+                    res.violation['sig'] = 'history-dependent-unreproduced:' + res.violation['sig']
+                self.isolate()
+                self._window.clear()
+                return res
+        if self.isolate is not None:
+            self._window.append(case)
+        return res
+
+    _window = None
+    ISOLATE_EVERY = 256
+
+    def _run_seq(self, seq):
+        self.isolate()
+        r = None
+        for c in seq:
+            r = self._guarded(c)
+        return r
+
+    def from_json(self, case):
+        """cases come back from replay files as lists; families that need tuples convert here"""
+        return case
+
+    def _guarded(self, case):
         try:
             with watchdog(self.timeout):
                 return self.check(case)
@@ -480,4 +560,14 @@ def main(argv):
 
 
 if __name__ == '__main__':
-    sys.exit(main(sys.argv[1:]))
+    try:
+        rc = main(sys.argv[1:])
+    except HarnessError as e:
+        sys.stderr.write('HARNESS ERROR: %s\n' % e)
+        rc = 2
+    except SystemExit:
+        raise
+    except BaseException:
+        traceback.print_exc()
+        rc = 2
+    sys.exit(rc)
